@@ -10,7 +10,7 @@
 (* Problems(bs, hints) is the list of everything that is inconsistent;          *)
 (* Streams(bs, hints) are the decoded (value, repetition, definition) streams   *)
 (* of every leaf column over the whole file.                                    *)
-EXTENDS Encodings, Thrift, Snappy, Bitwise, SequencesExt
+EXTENDS Encodings, Thrift, Snappy, Bitwise, SequencesExt, Order
 
 PAR1 == <<80, 65, 82, 49>>
 
@@ -48,7 +48,9 @@ Walk(els, idx, todo, path, d, r, acc) ==
            kids == IOr(e, 5, 0)
        IN IF kids = 0
           THEN Walk(els, idx + 1, todo - 1, path, d, r,
-                    Append(acc, [bad |-> FALSE, path |-> p2, type |-> IOr(e, 1, -1), tlen |-> IOr(e, 2, 0), maxDef |-> d2, maxRep |-> r2]))
+                    Append(acc, [bad |-> FALSE, path |-> p2, type |-> IOr(e, 1, -1), tlen |-> IOr(e, 2, 0), maxDef |-> d2, maxRep |-> r2,
+                                 \* the order of the physical type applies (no logical type, or a string)
+                                 plain |-> (~Has(e, 6) /\ ~Has(e, 10)) \/ IOr(e, 1, -1) = 6]))
           ELSE LET sub == TLCEval(Walk(els, idx + 1, kids, p2, d2, r2, acc))
                IN Walk(els, sub[2], todo - 1, path, d, r, sub[1])
 Leaves(fm) == LET els == L(Field(fm, 2)) IN
@@ -59,6 +61,22 @@ BitW(max) == IF max = 0 THEN 0 ELSE IF max < 2 THEN 1 ELSE IF max < 4 THEN 2 ELS
 \* bytes per value of the fixed-width physical types (0: variable)
 Width(leaf) == CASE leaf.type = 1 -> 4 [] leaf.type = 2 -> 8 [] leaf.type = 3 -> 12 [] leaf.type = 4 -> 4 [] leaf.type = 5 -> 8
                  [] leaf.type = 7 -> leaf.tlen [] OTHER -> 0
+
+\* column order of the physical type (TYPE_ORDER); "none" where the format defines no order (INT96) or a logical type changes it
+OrderKind(leaf) == IF ~leaf.plain THEN "none"
+                   ELSE CASE leaf.type = 0 -> "boolean" [] leaf.type = 1 -> "int32" [] leaf.type = 2 -> "int64"
+                          [] leaf.type = 4 -> "float" [] leaf.type = 5 -> "double" [] leaf.type \in {6, 7} -> "bytes" [] OTHER -> "none"
+\* Statistics: 3 null_count, 5 max_value, 6 min_value.  Bounds, where present, must bound the non-NaN values.
+\* Readers must ignore NaN bounds, and the SkipPageBounds option writes both bounds as empty strings: neither is judged.
+BoundProblems(leaf, st, vals, what) ==
+  LET kind == OrderKind(leaf)
+      real == SelectSeq(vals, LAMBDA v : ~IsNaN(kind, v))
+      lo == IF st.t = "struct" /\ Has(st, 6) THEN B(Field(st, 6)) ELSE <<>>
+      hi == IF st.t = "struct" /\ Has(st, 5) THEN B(Field(st, 5)) ELSE <<>>
+      skipped == Len(lo) = 0 /\ Len(hi) = 0
+  IN IF kind = "none" \/ st.t # "struct" \/ skipped THEN <<>>
+     ELSE (IF Has(st, 6) /\ ~IsNaN(kind, lo) /\ (\E k \in 1..Len(real) : ~KLE(kind, lo, real[k])) THEN <<what \o "-min-not-a-lower-bound">> ELSE <<>>)
+       \o (IF Has(st, 5) /\ ~IsNaN(kind, hi) /\ (\E k \in 1..Len(real) : ~KLE(kind, real[k], hi)) THEN <<what \o "-max-not-an-upper-bound">> ELSE <<>>)
 
 ---------------------------------------------------------------------------
 (* pages of a column chunk: parsed sequentially from the chunk's first page *)
@@ -142,6 +160,8 @@ DataPage(bs, leaf, p, codec, dict, hints) ==
            probs |-> (IF Len(body) # p.usize THEN <<"uncompressed_page_size">> ELSE <<>>)
                   \o (IF MalInts(rl[1]) \/ MalInts(dl[1]) \/ Len(rl[1]) < nv \/ Len(dl[1]) < nv THEN <<"levels-malformed">> ELSE <<>>)
                   \o (IF MalVals(vals) \/ Len(vals) < nn THEN <<"values-malformed">> ELSE <<>>)
+                  \o (IF MalVals(vals) THEN <<>> ELSE BoundProblems(leaf, Field(dh, 5), Take(vals, nn), "page-stats"))
+                  \o (IF Has(dh, 5) /\ Has(Field(dh, 5), 3) /\ I(Field(Field(dh, 5), 3)) # nv - nn THEN <<"page-stats-null_count">> ELSE <<>>)
                   \o (IF leaf.maxDef > 0 /\ I(Field(dh, 3)) # 3 THEN <<"definition_level_encoding">> ELSE <<>>)
                   \o (IF leaf.maxRep > 0 /\ I(Field(dh, 4)) # 3 THEN <<"repetition_level_encoding">> ELSE <<>>)]
   ELSE
@@ -166,6 +186,8 @@ DataPage(bs, leaf, p, codec, dict, hints) ==
                   \o (IF MalInts(reps) \/ MalInts(defs) \/ Len(reps) < nv \/ Len(defs) < nv THEN <<"levels-malformed">> ELSE <<>>)
                   \o (IF MalVals(vals) \/ Len(vals) < nn THEN <<"values-malformed">> ELSE <<>>)
                   \o (IF (leaf.maxRep = 0 /\ rlen # 0) \/ (leaf.maxDef = 0 /\ dlen # 0) THEN <<"v2-levels-for-flat-column">> ELSE <<>>)
+                  \o (IF MalVals(vals) THEN <<>> ELSE BoundProblems(leaf, Field(dh, 8), Take(vals, nn), "page-stats"))
+                  \o (IF Has(dh, 8) /\ Has(Field(dh, 8), 3) /\ I(Field(Field(dh, 8), 3)) # nv - nn THEN <<"page-stats-null_count">> ELSE <<>>)
                   \o (IF I(Field(dh, 2)) # nv - nn THEN <<"v2-num_nulls">> ELSE <<>>)
                   \o (IF I(Field(dh, 3)) # Len(SelectSeq(Take(reps, nv), LAMBDA x : x = 0)) THEN <<"v2-num_rows">> ELSE <<>>)]
 
@@ -183,7 +205,9 @@ SumOf(s, f(_)) == FoldLeft(LAMBDA a, x : a + f(x), 0, s)
 CountIf(s, t(_)) == Len(SelectSeq(s, t))
 Tag(pre, probs) == [k \in 1..Len(probs) |-> pre \o probs[k]]
 
-Chunk(bs, cc, leaf, hints, rgRows) ==
+\* noBounds: columns for which the writer was told not to record page bounds in the index (SkipPageBounds): their
+\* index entries carry placeholders, which are not judged
+Chunk(bs, cc, leaf, hints, rgRows, noBounds) ==
   LET md == Field(cc, 3)
       codec == I(Field(md, 4))
       dpo == I(Field(md, 9))
@@ -235,7 +259,10 @@ Chunk(bs, cc, leaf, hints, rgRows) ==
                                 \/ (Has(x, 5) /\ Len(L(Field(x, 5))) # Len(dps)) THEN <<"column-index-page-count">>
                              ELSE IF \E k \in 1..Len(dps) : (np[k].v = 1) # (Len(dec[k].vals) = 0) THEN <<"column-index-null-page">>
                              ELSE IF Has(x, 5) /\ \E k \in 1..Len(dps) : I(L(Field(x, 5))[k]) # dec[k].nv - Len(dec[k].vals) THEN <<"column-index-null-count">>
-                             ELSE <<>>)
+                             ELSE IF \E q \in 1..Len(noBounds) : noBounds[q] = leaf.path THEN <<>>
+                             ELSE FoldLeft(LAMBDA a, k : a \o (IF np[k].v = 1 THEN <<>> ELSE
+                                     BoundProblems(leaf, [t |-> "struct", f |-> <<<<6, L(Field(x, 2))[k]>>, <<5, L(Field(x, 3))[k]>>>>], dec[k].vals, "column-index")),
+                                           <<>>, [k \in 1..Len(dps) |-> k]))
          \* bloom filter
          bfo == IOr(md, 14, 0)
          bf == IF bfo > 0 THEN Struct(bs, bfo + 1) ELSE <<Absent, 0>>
@@ -268,6 +295,7 @@ Chunk(bs, cc, leaf, hints, rgRows) ==
            \o (IF I(Field(md, 1)) # leaf.type THEN <<"column-type">> ELSE <<>>)
            \o (IF [k \in 1..Len(L(Field(md, 3))) |-> B(L(Field(md, 3))[k])] # leaf.path THEN <<"path_in_schema">> ELSE <<>>)
            \o (IF Has(md, 12) /\ Has(Field(md, 12), 3) /\ I(Field(Field(md, 12), 3)) # nulls THEN <<"statistics.null_count">> ELSE <<>>)
+           \o (IF Has(md, 12) /\ ~MalVals(vals) THEN BoundProblems(leaf, Field(md, 12), vals, "chunk-stats") ELSE <<>>)
            \o (IF crcBad THEN <<"crc">> ELSE <<>>)
            \o oiProbs \o ciProbs \o bfProbs]
 
@@ -291,7 +319,7 @@ Tiles(regs, from, to) ==
   LET sorted == SortSeq(regs, LAMBDA a, b : a[1] < b[1])
   IN FoldLeft(LAMBDA pos, r : IF pos = r[1] THEN r[2] ELSE -1, from, sorted) = to
 
-Analyse(bs, hints) ==
+Analyse(bs, hints, noBounds) ==
   LET ft == TLCEval(Footer(bs)) IN
   IF ~ft.ok THEN [probs |-> <<ft.why>>, streams |-> <<>>]
   ELSE
@@ -302,7 +330,7 @@ Analyse(bs, hints) ==
   IN IF ~SchemaConsumed(fm) \/ \E k \in 1..nl : leaves[k].bad THEN [probs |-> <<"schema-tree">>, streams |-> <<>>]
      ELSE IF \E g \in 1..Len(rgs) : Len(L(Field(rgs[g], 1))) # nl THEN [probs |-> <<"row-group-column-count">>, streams |-> <<>>]
      ELSE
-     LET ch == TLCEval([g \in 1..Len(rgs) |-> [c \in 1..nl |-> Chunk(bs, L(Field(rgs[g], 1))[c], leaves[c], hints, I(Field(rgs[g], 3)))]])
+     LET ch == TLCEval([g \in 1..Len(rgs) |-> [c \in 1..nl |-> Chunk(bs, L(Field(rgs[g], 1))[c], leaves[c], hints, I(Field(rgs[g], 3)), noBounds)]])
          rgProbs(g) ==
            LET rg == rgs[g]
                cols == L(Field(rg, 1))
@@ -316,6 +344,10 @@ Analyse(bs, hints) ==
          allRegions == FoldLeft(LAMBDA a, g : a \o FoldLeft(LAMBDA b, c : b \o ch[g][c].regions, <<>>, [c \in 1..nl |-> c]), <<>>, [g \in 1..Len(rgs) |-> g])
      IN [probs |-> FoldLeft(LAMBDA a, g : a \o rgProbs(g), <<>>, [g \in 1..Len(rgs) |-> g])
                  \o (IF I(Field(fm, 3)) # SumOf(rgs, LAMBDA rg : I(Field(rg, 3))) THEN <<"file.num_rows">> ELSE <<>>)
+                 \* FileMetaData 7 column_orders: one per leaf; RowGroup 4 sorting_columns: SortingColumn 1 column_idx names a leaf
+                 \o (IF Has(fm, 7) /\ Len(L(Field(fm, 7))) # nl THEN <<"file.column_orders">> ELSE <<>>)
+                 \o (IF \E g \in 1..Len(rgs) : Has(rgs[g], 4) /\ \E k \in 1..Len(L(Field(rgs[g], 4))) :
+                            LET ci == I(Field(L(Field(rgs[g], 4))[k], 1)) IN ci < 0 \/ ci >= nl THEN <<"rg.sorting_columns">> ELSE <<>>)
                  \o (IF ~Tiles(allRegions, 4, ft.off) THEN <<"bytes-not-accounted-for">> ELSE <<>>),
          streams |-> [c \in 1..nl |-> [path |-> leaves[c].path,
                                         reps |-> FoldLeft(LAMBDA a, g : a \o ch[g][c].reps, <<>>, [g \in 1..Len(rgs) |-> g]),
